@@ -513,10 +513,6 @@ func (vs *ValidatorStore) GetEndBlockUpdate(ctx *ValidatorContext, req types.Req
 		sort.Strings(keysLA)
 
 		for _, addr := range keysLA {
-			if activeCount == 0 {
-				// nobody is electable: keep the present validator set, an empty one halts the chain
-				break
-			}
 			addrHuman := keys.Address(addr).Humanize()
 			pub, ok := nonTopValidators[addrHuman]
 			if !ok {
